@@ -55,9 +55,11 @@ func (m *FixPeriodPlanner) Process(ctx *shared.PlannerContext,
 
 	go func() {
 		defer close(res)
+		first := true
 		for entries := range _in {
 			for _, entry := range entries {
-				if entry.Fingerprint != fingerprint {
+				if first || entry.Fingerprint != fingerprint {
+					first = false
 					exportEntries()
 					fingerprint = entry.Fingerprint
 					values = make([]float64, (_to-_from)/ctx.Step.Nanoseconds()+1)
